@@ -80,7 +80,7 @@ def optStr : Option Str → Json
   | some s => jstr s
 
 def taskJson (cfgNames : List Str) (t : Task2) : Json :=
-  Json.mkObj [("full", jstr t.full), ("cid", jstr t.cid), ("slug", jstr t.slug), ("ns", optStr t.objNs), ("name_ns", optStr t.ns),
+  Json.mkObj [("full", jstr t.full), ("cid", jstr t.objCid), ("name_cid", jstr t.cid), ("slug", jstr t.slug), ("ns", optStr t.objNs), ("name_ns", optStr t.ns),
     ("params", Json.arr (t.objParams.map (fun kv => Json.arr #[jstr kv.1, pvalJson kv.2])).toArray),
     ("own_params", Json.arr (t.params.map (fun kv => Json.arr #[jstr kv.1, pvalJson kv.2])).toArray),
     ("inputs", Json.arr (t.inputs.map (fun kv => Json.arr #[jstr kv.1, match kv.2 with
